@@ -118,8 +118,12 @@ VisitCErr(s) == /\ loop /\ gr[s] = 0 /\ status[s] = "W" /\ cls[s] = "CERR" /\ Lo
                 /\ UNCHANGED <<cfgv, ctxc, quiet, gerr, loop, want, twice, nl, by, gpc, rpc, pt, role, done, rfail, ran, upst, dn>>
 CancelCall == /\ canc = "pending" /\ canc' = "called"
               /\ UNCHANGED <<cfgv, ctxc, quiet, status, gerr, loop, want, twice, nl, by, gpc, rpc, pt, role, done, rfail, ran, upst, dn>>
-CancelSet == /\ canc = "called" /\ canc' = "set" /\ ctxc' = TRUE
-             /\ UNCHANGED <<cfgv, quiet, status, gerr, loop, want, twice, nl, by, gpc, rpc, pt, role, done, rfail, ran, upst, dn>>
+\* inside TaskRunner.Cancel: the context is cancelled (from here on runs are refused and jobs die), THEN the
+\* event CancelSet is recorded - a job that the cancellation kills may record its end before that event
+CtxCancel == /\ canc = "called" /\ ~ctxc /\ ctxc' = TRUE
+             /\ UNCHANGED <<cfgv, canc, quiet, status, gerr, loop, want, twice, nl, by, gpc, rpc, pt, role, done, rfail, ran, upst, dn>>
+CancelSet == /\ canc = "called" /\ ctxc /\ canc' = "set"
+             /\ UNCHANGED <<cfgv, ctxc, quiet, status, gerr, loop, want, twice, nl, by, gpc, rpc, pt, role, done, rfail, ran, upst, dn>>
 CancelDone == /\ canc = "set" /\ \A s \in Stages : rpc[s] # "entered"
               /\ canc' = "done" /\ quiet' = TRUE
               /\ UNCHANGED <<cfgv, ctxc, status, gerr, loop, want, twice, nl, by, gpc, rpc, pt, role, done, rfail, ran, upst, dn>>
@@ -251,7 +255,7 @@ DownEnd(c) == /\ dn[c] = "running" /\ dn' = [dn EXCEPT ![c] = "done"]
               /\ UNCHANGED <<cfgv, cvars, status, gerr, loop, want, twice, nl, by, gpc, rpc, pt, role, done, rfail, ran, upst>>
 Next == \/ LoopExit
         \/ \E i, s \in Stages : VisitDecide(i, s) \/ VisitCommit(i, s)
-        \/ CancelCall \/ CancelSet \/ CancelDone
+        \/ CancelCall \/ CtxCancel \/ CancelSet \/ CancelDone
         \/ \E s \in Stages : VisitCErr(s) \/ RunRefused(s) \/ CmdKilled(s)
         \/ \E s \in Stages : Visit(s) \/ StageEnter(s) \/ NReturn(s) \/ RunEnter(s) \/ CmdStart(s) \/ CmdEnd(s) \/ RunExit(s) \/ StageRet(s) \/ Publish(s) \/ PublishRest(s)
         \/ \E c \in Ctxs : DownStart(c) \/ DownEnd(c)
